@@ -75,6 +75,9 @@ func (e treeEngine) Run(ctx *RunCtx) {
 	if e.prop == "c20" {
 		flags = append(flags, "agg")
 	}
+	if e.prop == "c18" {
+		flags = append(flags, "assertions")
+	}
 	w := NewJWorld(c, workspace, flags...)
 	policy := c.Choose("policy", numPolicies)
 	d := NewDriver(ctx, c, w.Env, policy, "sut", ctx.Log)
